@@ -143,7 +143,8 @@ def compress_shapes(tier, rnd):
     for _ in range(n):
         k = rnd.randrange(12)
         far = rnd.choice([2048, -2049, 4096, -4096, 2 ** 12 + 1, 65536, -65536, 2 ** 31, -2 ** 31 - 1, 2 ** 32, 2 ** 32 + 1])
-        imm = rnd.choice([far, far, edgey(rnd, -2048, 2047)])
+        rvc = rnd.choice([512, -512, 496, 508, -528, 1020, 1024, 124, 128, 252, 256, 31, 32, -32, -33, 16, -16, 4, 60, 64])
+        imm = rnd.choice([far, far, edgey(rnd, -2048, 2047), rvc, rvc])
         if k == 0:
             out.append(('addi', 32, [('r', 0), ('r', 0), ('i', imm)]))
         elif k == 1:
@@ -230,9 +231,33 @@ def run(prop, tier, rep):
     n = len(rows)
     if prop == 'C06':
         n += run_compress_shapes(asm, tier, rnd, rep)
+        n += run_nonint(asm, rep)
     if prop == 'C02':
         n += reverse_halfwords(asm, rep)
     return n
+
+
+NONINT = ['7/2', '10/4', '2047.9', '31.75', '9/2', '1e3', '3.0', '0.5', '-1.5', '5/1', '2**0.5', '1/3', '4/2']
+
+
+def run_nonint(asm, rep):
+    """operands that do not denote an integer (a fraction, a float - true division gives a float even when it is whole) are
+    not representable in any field: refused in both modes, never rounded"""
+    tmpl = ['addi x1, x0, {}', 'addi x8, x8, {}', 'lw x1, x2, {}', 'sw x2, x3, {}', 'lui x5, {}', 'slti x9, x9, {}', 'c.addi x9, {}',
+            'c.lwsp x1, {}', 'c.li x8, {}', 'li x5, {}', 'jalr x1, x2, {}', 'andi x8, x8, {}', 'dw {}', 'db {}', 'pack <I, {}']
+    n = 0
+    for t in tmpl:
+        for v in NONINT:
+            line = '    ' + t.format(v)
+            for comp, fn in ((False, assemble_line), (True, assemble_line_c)):
+                st, b = fn(asm, line)
+                rep.evaluations += 1
+                n += 1
+                rep.count('text_nonint_' + st.split()[0])
+                if st == 'ok':
+                    rep.violation('the operand of {!r} is not an integer but the line assembled to {} (compress={})'.format(
+                        line.strip(), b.hex(), comp), dict(case=dict(line=line, status=st, bytes=b.hex(), compress=comp), text_line=line))
+    return len(tmpl) * len(NONINT)
 
 
 def run_compress_shapes(asm, tier, rnd, rep):
